@@ -1,3 +1,5 @@
 SPECIFICATION Spec
+CONSTANTS
+  Prop = "C12"
 POSTCONDITION Accepted
 CHECK_DEADLOCK FALSE
